@@ -111,6 +111,25 @@ def r14_2(chk, facts):
         site = U.site(fn, 'eof in escape')
         if ok: chk.ok('R14.2', site, {'verdict': 'state == escaped after the loop stores an error'})
         else: chk.fail('R14.2', site, fn['file'], fn['l'], 'a pointer ending in ~ is not rejected after the loop', None, fn['q'])
+        # end of input in every other state: the statements after the character loop, evaluated with the state fixed
+        top = fn['body'].get('c') or []
+        wi = next((i for i, y in enumerate(top) if y.get('k') == 'WhileStmt'), None)
+        chk.require(wi is not None, 'parse: character loop not found at the top level')
+        for sv, sname in sorted(names.items()):
+            if sname not in ('new_token', 'part', 'escaped'): continue
+            pe = P.PEval(facts, fn, max_depth=1)
+            env = {state_id: sv}
+            for st in top[wi + 1:]:
+                r = pe.exec_stmt(st, env, (), 0)
+                if 'next' not in r: break
+            tokpush = [e for e in pe.effects if e.kind == 'call' and e.name == 'tokens.push_back' and not e.guards]
+            errs = [e for e in pe.effects if e.kind == 'set' and e.name == 'ec' and not e.guards]
+            site = U.site(fn, 'end of input in state %s' % sname)
+            if sname == 'escaped': ok2 = bool(errs) and not tokpush; want = 'an error (the pointer ends inside an escape)'
+            else: ok2 = len(tokpush) == 1 and not errs; want = 'the open token pushed once (a pointer ending in "/" has a final empty token)'
+            if ok2: chk.ok('R14.2', site, {'state': sname, 'token_pushed': len(tokpush), 'error': bool(errs)})
+            else: chk.fail('R14.2', site, fn['file'], top[wi + 1].get('l') if len(top) > wi + 1 else fn['l'],
+                           'end of input in tokenizer state %s: %d token push(es), error stored: %s; RFC 6901 needs %s' % (sname, len(tokpush), bool(errs), want), None, fn['q'])
 
 def r14_3(chk, facts):
     chk.rule('R14.3', 'index grammar: every dec_to_integer conversion of a reference token to an array index is followed by a test that '
@@ -118,6 +137,10 @@ def r14_3(chk, facts):
     fns = [f for f in facts.functions if f['file'].endswith('jsonpointer.hpp') and not f.get('dep') and f.get('body') is not None]
     n = 0
     seen = set()
+    # overloads of one name (const and mutable resolve) are distinct sites: number them in source order
+    ovl = {}
+    for name in set(f['n'] for f in fns):
+        for j, key in enumerate(sorted(set((f['file'], f['l']) for f in fns if f['n'] == name))): ovl[key] = 'overload%d' % (j + 1)
     for fn in U.one_per_inst(fns):
         calls = [c for c in A.walk_no_lambda(fn['body']) if c.get('k') == 'CallExpr' and A.callee_name(c) == 'dec_to_integer']
         calls = [c for c in calls if 'buffer' in A.text((c.get('args') or [None])[0])]
@@ -143,7 +166,7 @@ def r14_3(chk, facts):
                 if te and any(x.kind == 'stmt' and U.assigned_member(x.ast) and U.assigned_member(x.ast)[0] == 'ec' for x in G.block_after(te[0])):
                     # the leading-zero test must only apply to tokens longer than one character
                     if any('length() > 1' in A.text(a) or 'size() > 1' in A.text(a) for a, lab, e in g.guards(m) if lab is True): ok = True
-            site = U.site(fn, 'index conversion#%d' % (i + 1))
+            site = U.site(fn, '%s index conversion#%d' % (ovl[(fn['file'], fn['l'])], i + 1))
             if site in seen: continue
             seen.add(site)
             if ok: chk.ok('R14.3', site, {'function': fn['q'], 'line': c.get('l')})
